@@ -46,6 +46,10 @@ ASSUMPTIONS = ['validators are deterministic functions of the value']
 OUTSIDE = ['pandas paths (to_dataframe/from_dataframe)', 'units', 'float/NaN/str values in histories (validators on floats are C07)']
 
 
+import logging as _logging
+_NULL_LOGGER = _logging.getLogger('verif.null')
+
+
 class D(diagnoses_lib.DiagResultEnum):
   X = 'x'
 
@@ -124,7 +128,7 @@ def _mk(lo, mlo, mhi, hi, tf, second, eqv, clo, chi, has_cv, cv_present, ndim, d
   phase = copy.copy(_PHASE_TEMPLATE)
   phase.measurements = [m0, md]
   ts = _FakeTestState(cv_present)
-  ps = TS.PhaseState.from_descriptor(phase, ts, None)
+  ps = TS.PhaseState.from_descriptor(phase, ts, _NULL_LOGGER)
   return phase, ps, ts
 
 
